@@ -271,7 +271,7 @@ def run(chk):
             r1.require(v in (f"float({k})", k), f"{fit.key}|error[{k}]", fit.where(s), f"self.error['{k}'] is assigned {v}")
 
     # ------------------------------------------------------------------ R16.2
-    sd = chk.repo.module(MET).functions.get("_safe_divide")
+    sd = chk.repo.try_func(MET, "_safe_divide")
     if sd is None:
         r2.require(False, f"{MET}:_safe_divide|present", "metrics.py", "_safe_divide vanished")
     else:
